@@ -259,7 +259,12 @@ class DBOSIdleReleaseDecorator(BaseRuntimeDecorator):
             await external.get_result()
 
             lifecycle = await self._get_lifecycle()
-            await lifecycle.complete_release(run_id)
+            if await lifecycle.complete_release(run_id) is False:
+                # Not 'releasing' any more: this release was taken for crashed and
+                # another sender resumed the run. It is active (or already finished);
+                # marking it released and idle now would overwrite that.
+                logger.info(f"Release of run_id={run_id} was superseded by a resume")
+                return
 
             # Set idle_since NOW — after the workflow is fully released
             await self._store.update_handler_status(
